@@ -365,7 +365,7 @@ theorem format_fixpoint_fragment (ts : List T) (h : WFProg ts) (w : Nat) :
   rw [hr]
   refine programP_of_sequence (seqP_head hl) rfl ?_
   unfold sequenceP
-  have hp := seqP_lay hl ((renderPieces ps).length + 1) [] (by omega) stop_nil
+  have hp := seqP_lay hl ((renderPieces ps).length + 1) [] (by omega) stopC_nil
     (sepTail_of_fails seqSep_fails_nil)
   rw [List.append_nil] at hp
   exact before_ok (b := none) hp (opt_of_fails seqSep_fails_nil)
@@ -400,8 +400,9 @@ theorem format_program_fixpoint_fragment (ts : List T) (h : WFProg ts) :
   rw [hr]
   refine programP_of_sequence ((seqP_head hl).append _) rfl ?_
   unfold sequenceP
-  have hfail : Fails (termP ((renderPieces ps ++ ['\n']).length + 1)) [] := termP_fails_nil _
-  have hp := seqP_lay hl ((renderPieces ps ++ ['\n']).length + 1) ['\n'] (by simp; omega) stop_nl
+  have hfail : Fails (chainP (termP ((renderPieces ps ++ ['\n']).length + 1))) [] :=
+    chainP_fails (termP_fails_nil _)
+  have hp := seqP_lay hl ((renderPieces ps ++ ['\n']).length + 1) ['\n'] (by simp; omega) stopC_nl
     (sepTail_item_fails seqSep_final (by simp) hfail)
   exact before_ok (b := some ()) hp (opt_ok seqSep_final)
 
@@ -420,13 +421,20 @@ the formatted text parses to formats to the same text again (idempotence). For Q
 the theorem below instantiates it for the two MODELS restricted to the fragment, and the `frag`
 differential ties the two models to the two Rust functions on that fragment.
 
-Covered after step 2: one statement that is a sequence of one or more steps (`,` / newline
-separated), each step a one-term chain whose term is a bare identifier, a bare tuple name, or an
-anonymous or named tuple of unnamed / named fields of the same kind; no trivia.
-Outside (decided by the implementation oracle only): chains of several terms (`a ~> b`, `[x] f`),
-bindings and patterns (`x = …`, `(a) = …` — hence the `(`-initial step rules of 0ca76af / 63d9fac),
-blocks and branches, functions, spawns, selects, literals, strings, accessors, imports, spreads,
-type aliases, and all comments / blank lines. -/
+Covered after step 3a: one statement that is a sequence of one or more steps (`,` / newline
+separated); each step — and each field value — a chain of one or more terms; a term is a bare
+identifier, a bare tuple name, an integer or binary literal, a single-line string without holes, or
+an anonymous or named tuple of unnamed / named fields; no trivia. Chains of SEVERAL terms are
+restricted (`chainOk`) to juxtaposition chains, argument-first application `[x, y] f`: no term but
+the last is a bare identifier and the last term is not a tuple with fields — so that no step is
+"tall" (no blank lines between steps), no `~>` continuation line is printed and `chain_doc` never
+takes its flattened-head path. The two MODELS cover all chains of these terms (pipelines with `~>`
+lines, tall steps with their blank lines, chains ending in a container) and agree with the
+implementation there too (differential); only the theorems need the restriction.
+Outside (decided by the implementation oracle only): the chains excluded by `chainOk`, bindings and
+patterns (`x = …`, `(a) = …` — hence the `(`-initial step rules of 0ca76af / 63d9fac), blocks and
+branches, functions, spawns, selects, strings with holes and `"""` strings, accessors, imports,
+spreads, type aliases, and all comments / blank lines. -/
 
 /-- C17's round-trip statement for a language (`InLang`) with parser `parse` and formatter `format`. -/
 def FormatFixpointStatement {Prog : Type} (parse : List Char → Option Prog) (format : Prog → List Char)
@@ -460,15 +468,15 @@ open QM.Frag QM.Parse in
     `(` are outside the fragment; on the implementation the rule is pinned by `corpus/C17/f20*`,
     `f23*`.) -/
 theorem bare_name_refuses_paren_after_newline :
-    tupleP (fieldP (termP 1)) ['A', '\n', '(', ')'] ≠ .ok (.tup (some ['A']) []) ['\n', '(', ')'] := by
-  have h1 : Fails (bracketsP (fieldP (termP 1))) ['\n', '(', ')'] := bracketsP_fails rfl
+    tupleP (fieldP (chainP (termP 1))) ['A', '\n', '(', ')'] ≠ .ok (.tup (some ['A']) []) ['\n', '(', ')'] := by
+  have h1 : Fails (bracketsP (fieldP (chainP (termP 1)))) ['\n', '(', ')'] := bracketsP_fails rfl
   have hname : tupleName ['A', '\n', '(', ')'] = .ok ['A'] ['\n', '(', ')'] :=
     tupleName_append (n := ['A']) (rest := ['\n', '(', ')']) rfl (by intro c t e; cases e; decide)
   have h3 : Fails (bind tupleName fun n => pmap (peekNot (seq ws0 (pchar '(')))
       (fun _ => T.tup (some n) [])) ['A', '\n', '(', ')'] := by
     refine Fails.bind_ok hname (Fails.pmap ?_)
     exact ⟨['\n', '(', ')'], .not, by simp [peekNot, QM.Parse.seq, QM.Parse.bind, ws0, pchar, isMultispace]⟩
-  have hfail : Fails (tupleP (fieldP (termP 1))) ['A', '\n', '(', ')'] :=
+  have hfail : Fails (tupleP (fieldP (chainP (termP 1)))) ['A', '\n', '(', ')'] :=
     Fails.alt (Fails.bind_ok hname (Fails.pmap h1))
       (Fails.alt (Fails.pmap (bracketsP_fails rfl)) h3)
   obtain ⟨e, c, he⟩ := hfail
